@@ -35,6 +35,10 @@ func checkC06(c *Ctx) {
 	c.endOfLevelsSignal()
 	lockBalance(c, func(cl string) bool { return strings.HasPrefix(cl, "topics.") }, "topic-store")
 	c.topicStoreLocking()
+	// the retained store keeps a re-encoded copy (a buffer of Len() bytes, filled by Encode, decoded again): the copy
+	// carries the fields of the message only if the codec's length tables and its dirty discipline hold
+	c.typeTables()
+	c.dirtyDiscipline()
 }
 
 func (c *Ctx) levelSplitter() {
